@@ -25,7 +25,8 @@ func init() {
 			}
 			return rows[n]
 		}
-		floatBits := map[string]string{}
+		floatBits := map[string][]string{}
+		floatGuard := map[string][]string{}
 		var fmtChar, fmtPrec, fmtBitsArg, suffix string
 		for _, file := range []string{"zconst.go", "const.go"} {
 			_, f, err := parseFile(filepath.Join(repo, "operand", file))
@@ -54,8 +55,8 @@ func init() {
 										if bl, ok := x.Args[1].(*ast.BasicLit); ok {
 											fmtChar = bl.Value
 										}
-										fmtPrec = exprString(x.Args[2])
-										fmtBitsArg = exprString(x.Args[3])
+										fmtPrec = c13exprString(x.Args[2])
+										fmtBitsArg = c13exprString(x.Args[3])
 									}
 								case *ast.AssignStmt:
 									if x.Tok == token.ADD_ASSIGN && len(x.Rhs) == 1 {
@@ -70,7 +71,29 @@ func init() {
 						continue
 					}
 					recvT, ok := d.Recv.List[0].Type.(*ast.Ident)
-					if !ok || d.Body == nil || len(d.Body.List) != 1 {
+					if !ok || d.Body == nil {
+						continue
+					}
+					if d.Name.Name == "String" {
+						// every asmfloat(…, bits) call in order, and the guard of a fallback if there is one
+						ast.Inspect(d.Body, func(n ast.Node) bool {
+							switch x := n.(type) {
+							case *ast.CallExpr:
+								if id, ok := x.Fun.(*ast.Ident); ok && id.Name == "asmfloat" && len(x.Args) == 2 {
+									floatBits[recvT.Name] = append(floatBits[recvT.Name], c13exprString(x.Args[1]))
+								}
+							case *ast.IfStmt:
+								g := c13exprString(x.Cond)
+								if as, ok := x.Init.(*ast.AssignStmt); ok && len(as.Rhs) == 1 {
+									g = c13exprString(as.Rhs[0]) + ";" + g
+								}
+								floatGuard[recvT.Name] = append(floatGuard[recvT.Name], g)
+							}
+							return true
+						})
+						continue
+					}
+					if len(d.Body.List) != 1 {
 						continue
 					}
 					ret, ok := d.Body.List[0].(*ast.ReturnStmt)
@@ -86,13 +109,7 @@ func init() {
 							}
 						}
 					case "Bytes":
-						get(recvT.Name).bytes = exprString(ret.Results[0])
-					case "String":
-						if call, ok := ret.Results[0].(*ast.CallExpr); ok && len(call.Args) == 2 {
-							if id, ok := call.Fun.(*ast.Ident); ok && id.Name == "asmfloat" {
-								floatBits[recvT.Name] = exprString(call.Args[1])
-							}
-						}
+						get(recvT.Name).bytes = c13exprString(ret.Results[0])
 					}
 				}
 			}
@@ -122,9 +139,9 @@ func init() {
 		b.WriteString("]\n")
 		var fb []string
 		for _, n := range []string{"F32", "F64"} {
-			fb = append(fb, fmt.Sprintf("(%s, %s)", leanStr(n), leanStr(floatBits[n])))
+			fb = append(fb, fmt.Sprintf("(%s, %s, %s)", leanStr(n), leanStrList(floatBits[n]), leanStrList(floatGuard[n])))
 		}
-		fmt.Fprintf(&b, "/-- second argument of asmfloat in F32.String / F64.String -/\ndef floatStringBits : List (String × String) := [%s]\n", strings.Join(fb, ", "))
+		fmt.Fprintf(&b, "/-- per float type: the bit sizes passed to asmfloat inside String(), in order, and the guards (init;cond) of its if statements -/\ndef floatStringBits : List (String × List String × List String) := [%s]\n", strings.Join(fb, ", "))
 		fmt.Fprintf(&b, "/-- strconv.FormatFloat(x, fmt, prec, bitSize) inside asmfloat, and the suffix added to integral values -/\n")
 		fmt.Fprintf(&b, "def asmfloatFormat : String × String × String × String := (%s, %s, %s, %s)\n", leanStr(fmtChar), leanStr(fmtPrec), leanStr(fmtBitsArg), leanStr(suffix))
 		b.WriteString("end Avo.Gen\n")
@@ -132,26 +149,26 @@ func init() {
 	}
 }
 
-func exprString(e ast.Expr) string {
+func c13exprString(e ast.Expr) string {
 	switch x := e.(type) {
 	case *ast.BasicLit:
 		return x.Value
 	case *ast.Ident:
 		return x.Name
 	case *ast.UnaryExpr:
-		return x.Op.String() + exprString(x.X)
+		return x.Op.String() + c13exprString(x.X)
 	case *ast.CallExpr:
 		var as []string
 		for _, a := range x.Args {
-			as = append(as, exprString(a))
+			as = append(as, c13exprString(a))
 		}
-		return exprString(x.Fun) + "(" + strings.Join(as, ",") + ")"
+		return c13exprString(x.Fun) + "(" + strings.Join(as, ",") + ")"
 	case *ast.SelectorExpr:
-		return exprString(x.X) + "." + x.Sel.Name
+		return c13exprString(x.X) + "." + x.Sel.Name
 	case *ast.BinaryExpr:
-		return exprString(x.X) + x.Op.String() + exprString(x.Y)
+		return c13exprString(x.X) + x.Op.String() + c13exprString(x.Y)
 	case *ast.ParenExpr:
-		return "(" + exprString(x.X) + ")"
+		return "(" + c13exprString(x.X) + ")"
 	}
 	return "?"
 }
